@@ -590,4 +590,11 @@ def space_common(ctx, plans):
                               "F": "sget"},
             "targets": "every slot 0..n (n = the appended final return-void), t <= u for switches",
             "plans": [dict(p, methods=plan_size(p)) for p in plans],
+            "field_maxima": list(BIG),
+            "decoy_history": "before every batch / shipped shard / replay a fixed different DEX with the same class, method "
+                             "and field names (LT; m0..m3 callee f) is loaded and analysed, results ignored",
+            "alternative_entry_points": "BasicBlocks list forms, get_basic_block, get_nb_instructions, get_last (C10); "
+                                        "get_next/get_prev (C11); ExceptionAnalysis.get(), Exceptions.gets() (C12); "
+                                        "off_to_pos / get_ins_off / get_instruction(off=) / get_instructions (C40)",
+            "handler_list_orders": "plans with 'hperms': every non-identity order of the encoded_catch_handler_list entries",
             "shipped": shipped_names(ctx)}
